@@ -177,32 +177,36 @@ def fixedParts (cfg : Cfg) (buffer : Str) : Parts :=
   let p := split buffer true
   if cfg.smartQuote then smartQuoter p else p
 
+/-- dictionary hits for the word part, ranked against it -/
+def fixedHits (env : Env) (cfg : Cfg) (word : Str) : List Rank :=
+  match fixedTableName word with
+  | none => []
+  | some t =>
+    let clean := cleanString word
+    let need := Gen.needCharsUpto clean.length
+    let ws := (env.fixedTable t).filter (fixedMatches clean need)
+    ws.map (fun w => Rank.newSuggestion (if cfg.fixedKar then tradKarWord w else w) word)
+
+/-- the typed word first, then the hits, adjacent duplicates removed, wrapped -/
+def fixedBase (env : Env) (cfg : Cfg) (parts : Parts) : List Rank :=
+  wrapAll parts (dedupAdjacent (Rank.first parts.word :: fixedHits env cfg parts.word))
+
+/-- the emoji items (emoticon of the raw keys, else the Bengali name of the word) -/
+def fixedEmoji (env : Env) (cfg : Cfg) (parts : Parts) (typed : Str) : List Rank :=
+  if cfg.ansi then []
+  else
+    match env.emoticon typed with
+    | some e => [Rank.emoji e Gen.emojiDefaultRank]
+    | none =>
+      match env.emojiBengali parts.word with
+      | some es => (es.zipIdx 1).map (fun (x, r) => Rank.emoji (wrapText parts.pre parts.trail x) r)
+      | none => []
+
 def fixedCands (env : Env) (cfg : Cfg) (s : FState) : FixedCands :=
-  let buffer := s.buffer
-  let typed := s.typed
-  let parts := fixedParts cfg buffer
-  let word := parts.word
-  let hits : List Rank :=
-    match fixedTableName word with
-    | none => []
-    | some t =>
-      let clean := cleanString word
-      let need := Gen.needCharsUpto clean.length
-      let ws := (env.fixedTable t).filter (fixedMatches clean need)
-      ws.map (fun w => Rank.newSuggestion (if cfg.fixedKar then tradKarWord w else w) word)
-  let l := dedupAdjacent (Rank.first word :: hits)
-  let l := wrapAll parts l
-  let emo : List Rank :=
-    if !cfg.ansi then
-      match env.emoticon typed with
-      | some e => [Rank.emoji e Gen.emojiDefaultRank]
-      | none =>
-        match env.emojiBengali word with
-        | some es => (es.zipIdx 1).map (fun (x, r) => Rank.emoji (wrapText parts.pre parts.trail x) r)
-        | none => []
-    else []
-  if cfg.english && buffer != typed then ⟨l ++ emo, 8, some (Rank.last typed 1)⟩
-  else ⟨l ++ emo, 9, none⟩
+  let parts := fixedParts cfg s.buffer
+  let cands := fixedBase env cfg parts ++ fixedEmoji env cfg parts s.typed
+  if cfg.english && s.buffer != s.typed then ⟨cands, 8, some (Rank.last s.typed 1)⟩
+  else ⟨cands, 9, none⟩
 
 /-- is `L` an allowed result of `sort_unstable(); truncate(keep)` on `cands` (plus English)?
     Returns `none` if allowed, else the name of the first clause that fails. -/
